@@ -993,7 +993,7 @@ def run(ctx):
     # 2. S->C: behaviours simulated by TLC, replayed on every class configuration
     from ..ctx import MachineryError
 
-    nbeh = 8 if quick else 120
+    nbeh = 8 if quick else 100
     sim = T.run_tlc("MC_C07sim", "MC_sim.cfg", ctx.spec_dir, workers=1, coverage=False, simulate="num=%d" % nbeh,
                     depth=80, seed=11 + ctx.seed, scratch=ctx.scratch, timeout=1200)
     vals = T.parse_printed_json(sim.output)
@@ -1020,7 +1020,8 @@ def run(ctx):
     others = [c for c in cfgs if not (c.cls == "Circuit" and c.name == "default")]
     for k, seq3 in enumerate(enum):
         b = enum_behaviour(seq3, k)
-        use = [cfgs[0]] + ([others[(k + ctx.seed) % len(others)]] if quick else others)
+        # thorough tier: the exact class and every second other configuration (alternating with k)
+        use = [cfgs[0]] + ([others[(k + ctx.seed) % len(others)]] if quick else [c for i, c in enumerate(others) if (i + k) % 2 == 0])
         if quick:       # quick tier: a third of the sequences on the exact class, two thirds on one other configuration
             use = ([use[0]] if k % 3 == ctx.seed % 3 else []) + ([use[1]] if k % 3 != (ctx.seed + 1) % 3 else [])
         for cfg in use:
